@@ -56,6 +56,11 @@ type X struct {
 	ReplayMode      int
 	Explored        *vsim.World // the explored world of this execution (decisions recorded here)
 	Inconclusive    string
+	// IsKnown reports whether a signature is an open known finding; NoteKnown records
+	// one observation of it. Used by checks that can keep exploring past a known
+	// finding inside one run (C12 re-bases its comparison).
+	IsKnown   func(sig string) bool
+	NoteKnown func(sig, detail string)
 	Fingerprint     uint64 // mixes the trace hash and step count of every world of this run (determinism self-test)
 	nontrivial      bool
 	caseHash        uint64
